@@ -110,3 +110,40 @@ Definition run_case (c : nat * nat * bool * bool * list op) : int :=
   let '(K, m, la, ba, ops) := c in
   let '(h, s) := init K m la ba in
   hashI (signature h [s] :: run_sig h s [s] ops).
+
+(* ---- operation sequences extracted from REAL main-loop runs (hooks H1): the optimise step carries one
+   tag per cluster (equal tags <=> the optimiser received bit-identical covariances), everything else
+   as in [op].  Uses the same phase functions as [step]. *)
+Inductive eop :=
+| ESet (labels : list nat)
+| ERepop (spread order : list nat) (draws : list (list nat))
+| EStats (biased : bool)
+| EOpt (tags : list nat)
+| ERelabel (labels : list nat) (cost : nat).
+
+Definition estep (hs : heap * loc) (o : eop) : option (heap * loc) :=
+  let '(h, s) := hs in
+  match o with
+  | ESet ls => let '(h1, l) := alloc h (OList ls) in Some (set_labels h1 s l, s)
+  | ERepop sp order draws => phase_repopulate h s (fun k => nth k sp 0) order draws
+  | EStats b => phase_statistics h s b
+  | EOpt tags => Some (phase_optimise h s (fun k => [nth k tags 0]))
+  | ERelabel ls c => Some (phase_relabel h s ls [c])
+  end.
+
+Fixpoint erun_sig (h : heap) (s : loc) (handles : list loc) (ops : list eop) : list int :=
+  match ops with
+  | [] => []
+  | o :: r =>
+    match estep (h, s) o with
+    | None => [1%uint63]
+    | Some (h', s') =>
+      let hs := if existsb (Nat.eqb s') handles then handles else handles ++ [s'] in
+      signature h' (recent hs) :: erun_sig h' s' hs r
+    end
+  end.
+
+Definition erun_case (c : nat * nat * bool * bool * list eop) : int :=
+  let '(K, m, la, ba, ops) := c in
+  let '(h, s) := init K m la ba in
+  hashI (erun_sig h s [s] ops).
